@@ -81,7 +81,8 @@ load_audio(void)
 
 /* --synth semi|ms|mixw: decoders load a synthetic model (see synth_model.h) instead of the bundled one */
 static char SYNTH_DIR[600];
-static int SYNTH_MS, MAXHMMPF;
+static int SYNTH_MS, MAXHMMPF, NOGRAM;
+static const char *CFGOPTS = "";
 static void
 synth_cleanup(void)
 {
@@ -101,12 +102,28 @@ make_decoder(void)
     config_set_str(cfg, "loglevel", "FATAL");
     if (MAXHMMPF > 0)
         config_set_int(cfg, "maxhmmpf", MAXHMMPF); /* the cap that makes the search narrow its beams dynamically */
+    {
+        /* --cfg key=value,key=value: non-default options */
+        char buf[512], *tok, *save = NULL;
+        snprintf(buf, sizeof buf, "%s", CFGOPTS);
+        for (tok = strtok_r(buf, ",", &save); tok; tok = strtok_r(NULL, ",", &save)) {
+            char *eq = strchr(tok, '=');
+            if (!eq)
+                continue;
+            *eq = 0;
+            if (config_set_str(cfg, tok, eq + 1) == NULL) {
+                fprintf(stderr, "cannot set %s=%s\n", tok, eq + 1);
+                exit(2);
+            }
+        }
+    }
     d = decoder_init(cfg);
     if (!d) {
         fprintf(stderr, "decoder_init failed\n");
         exit(2);
     }
-    if (decoder_set_jsgf_string(d, G1) < 0) {
+    /* --nogram 1: the decoder starts life WITHOUT a grammar (a state the default start never visits) */
+    if (!NOGRAM && decoder_set_jsgf_string(d, G1) < 0) {
         fprintf(stderr, "initial grammar refused\n");
         exit(2);
     }
@@ -539,6 +556,16 @@ digest(decoder_t *d, char *buf, size_t n)
 
 /* streaming probe (channel normalisation reset first) and batch probe (no reset needed) */
 static int
+stream_blocks(decoder_t *d, int16 *aud, size_t len)
+{
+    size_t pos;
+    for (pos = 0; pos < len; pos += 256)
+        if (decoder_process_int16(d, aud + pos, len - pos < 256 ? len - pos : 256, 0, 0) < 0)
+            return -1;
+    return 0;
+}
+
+static int
 probe(decoder_t *d, char *dstream, char *dbatch, size_t n, int setgram)
 {
     /* the probe grammar is loaded only when the history left another one: loading a grammar creates a new search
@@ -571,16 +598,42 @@ probe(decoder_t *d, char *dstream, char *dbatch, size_t n, int setgram)
             digest(d, dbatch + l, n - l);
         }
     }
-    /* streaming mode with the channel normalisation state set to a fixed value */
+    /* streaming mode with the channel normalisation state set to a fixed value; the audio arrives in 256-sample blocks
+     * (less than one analysis window: the first call completes no frame) */
     if (decoder_set_cmn(d, CMN_FIXED) < 0)
         return -2;
     if (decoder_start_utt(d) < 0)
         return -3;
-    if (decoder_process_int16(d, AUD_P, N_P, 0, 0) < 0)
+    if (stream_blocks(d, AUD_P, N_P) < 0)
         return -4;
     if (decoder_end_utt(d) < 0)
         return -5;
     digest(d, dstream, n);
+    /* the state reset through a SHORT list (unlisted coefficients count as zero), then two streamed utterances in a
+     * row without another reset, and the state as text after them */
+    {
+        size_t l = strlen(dstream);
+        const char *rep;
+        if (decoder_set_cmn(d, "40,3,-1") < 0)
+            return -11;
+        if (decoder_start_utt(d) < 0 || stream_blocks(d, AUD_QA, N_A) < 0 || decoder_end_utt(d) < 0)
+            return -12;
+        if (l + 8 < n) {
+            l += snprintf(dstream + l, n - l, " || SA: ");
+            digest(d, dstream + l, n - l);
+            l = strlen(dstream);
+        }
+        if (decoder_start_utt(d) < 0 || stream_blocks(d, AUD_QB, N_B) < 0 || decoder_end_utt(d) < 0)
+            return -13;
+        if (l + 8 < n) {
+            l += snprintf(dstream + l, n - l, " || SB: ");
+            digest(d, dstream + l, n - l);
+            l = strlen(dstream);
+        }
+        rep = decoder_get_cmn(d, 0);
+        if (l + 8 < n)
+            snprintf(dstream + l, n - l, " || cmn: %s", rep ? rep : "NULL");
+    }
     return 0;
 }
 
@@ -673,8 +726,8 @@ run_hist(const hist_t *h)
     mc_case_begin(CUR_IDX, cd);
     memset(&m, 0, sizeof m);
     m.st = ST_IDLE;
-    m.has_search = 1;
-    m.g1 = 1;
+    m.has_search = !NOGRAM;
+    m.g1 = !NOGRAM;
     decoder_t *d2 = NULL;
     int step2 = 0;
     if (TWO)
@@ -796,7 +849,7 @@ run_hist(const hist_t *h)
         char s2[DIGN], b2[DIGN];
         if ((step2 % 4) == 1 || (step2 % 4) == 2)
             decoder_end_utt(d2);
-        rc = probe(d2, s2, b2, sizeof s2, 0);
+        rc = probe(d2, s2, b2, sizeof s2, NOGRAM);
         if (P_C08 && (rc < 0 || strcmp(s2, REF_STREAM) != 0 || strcmp(b2, REF_BATCH) != 0)) {
             mc_viol("C08/second-decoder-influenced", cd, "a second decoder used between these operations gives %s | alone: %s", rc < 0 ? "(probe failed)" : strcmp(s2, REF_STREAM) ? s2 : b2,
                     strcmp(s2, REF_STREAM) ? REF_STREAM : REF_BATCH);
@@ -885,6 +938,8 @@ main(int argc, char **argv)
     MAXL = atoi(mc_arg(argc, argv, "--len", "2"));
     TWO = atoi(mc_arg(argc, argv, "--two", "0"));
     MAXHMMPF = atoi(mc_arg(argc, argv, "--maxhmmpf", "0"));
+    NOGRAM = atoi(mc_arg(argc, argv, "--nogram", "0"));
+    CFGOPTS = mc_arg(argc, argv, "--cfg", "");
     if (strcmp(set, "proto") == 0)
         SET_N = N_PROTO;
     else if (strcmp(set, "core") == 0)
@@ -897,7 +952,14 @@ main(int argc, char **argv)
         for (i = 0; i < SET_N; i++)
             SETMAP[i] = ops[i];
     }
-    if (strcmp(set, "dict") != 0)
+    else if (strcmp(set, "boot") == 0) {
+        /* what a decoder goes through on its way to its first utterance */
+        static const int ops[] = { OP_START, OP_PROC_A, OP_END, OP_HYP, OP_SET_G1, OP_ALIGN_T1, OP_LATTICE, OP_ALIGN, OP_REINIT, OP_FREE };
+        SET_N = (int)(sizeof ops / sizeof *ops);
+        for (i = 0; i < SET_N; i++)
+            SETMAP[i] = ops[i];
+    }
+    if (strcmp(set, "dict") != 0 && strcmp(set, "boot") != 0)
         for (i = 0; i < SET_N; i++)
             SETMAP[i] = i;
     {
@@ -923,7 +985,7 @@ main(int argc, char **argv)
     /* reference digests from a fresh decoder, which is then released */
     {
         decoder_t *f = make_decoder();
-        int rc = probe(f, REF_STREAM, REF_BATCH, sizeof REF_STREAM, 0);
+        int rc = probe(f, REF_STREAM, REF_BATCH, sizeof REF_STREAM, NOGRAM);
         decoder_free(f);
         if (rc < 0) {
             fprintf(stderr, "probe failed on a fresh decoder (%d)\n", rc);
